@@ -112,6 +112,7 @@ func run() int {
 	outDir := filepath.Join(*verifDir, "out")
 	w.PF = vc.NewPortfolio(filepath.Join(outDir, "smt", *prop), 16)
 	w.PF.AllAgree = *tier == "thorough"
+	w.Prop = *prop
 	if cfg.Schema {
 		w.SchemaFor = vc.DecoderSchema(w)
 	}
@@ -127,6 +128,9 @@ func run() int {
 			}
 			if sc.NoLayout != "" {
 				outOfSchema = append(outOfSchema, sc.Type+": "+sc.NoLayout)
+			}
+			if os.Getenv("GOVC_SHOW_SCHEMA") == sc.Type {
+				fmt.Fprintln(os.Stderr, sc.MarshalContractText())
 			}
 			cts, err := vc.ParseContractSource(sc.MarshalContractText(), "schema:"+sc.Type, sc.PkgPath)
 			if err != nil {
@@ -247,7 +251,7 @@ func run() int {
 		tg := time.Now()
 		opts := vc.VerifyOpts{SafetyOnly: j.safety && (j.ct == nil || !j.ct.Props[*prop])}
 		var r *vc.FnResult
-		if j.ct != nil && j.ct.PreferInt {
+		if j.ct != nil && j.ct.PreferInt && os.Getenv("GOVC_NO_PREFER_INT") == "" {
 			opts.ForceInt = true
 			r = w.VerifyFn(j.fn, j.ct, opts)
 			if r.OutOfSubset != "" {
@@ -317,7 +321,7 @@ func run() int {
 	for _, r := range results {
 		for _, o := range r.Obls {
 			// clauses tagged for other properties only are checked by those properties' checks
-			if len(o.Props) > 0 && !o.Cover {
+			if len(o.Props) > 0 && !o.Cover && o.Kind != "inv-init" && o.Kind != "inv-step" {
 				mine := false
 				for _, p := range o.Props {
 					if p == *prop {
